@@ -269,6 +269,7 @@ func genUciLines(t *rapid.T, maxLines int) uciLinesCase {
 	var c uciLinesCase
 	n := rapid.IntRange(1, maxLines).Draw(t, "lines")
 	cur := rc.MustParse(rc.StartFEN)
+	var posHist []uStep
 	for i := 0; i < n; i++ {
 		var line string
 		switch rapid.IntRange(0, 9).Draw(t, "cmd") {
@@ -278,16 +279,9 @@ func genUciLines(t *rapid.T, maxLines int) uciLinesCase {
 				cur = rc.MustParse(rc.StartFEN)
 			}
 		case 1, 2:
-			st := uStep{Kind: "position"}
-			p := rc.MustParse(rc.StartFEN)
-			if rapid.Bool().Draw(t, "fromFen") {
-				p = hx.GenStart(t, 10)
-				st.Fen = p.FEN()
-			}
-			pl := hx.GenPlayoutFrom(t, p, 12, 1)
-			st.Moves = pl.Moves
-			ps, _ := pl.Replay()
-			cur = ps[len(ps)-1]
+			var st uStep
+			st, cur = genPositionStep(t, posHist, 10, 12)
+			posHist = append(posHist, st)
 			line = positionLine(st)
 		case 3, 4, 5:
 			l := hx.GenLimits(t, 4)
